@@ -171,7 +171,7 @@ func Prepare(s *ev.S, opt Options) (*BuildReport, error) {
 		for _, d := range f.Defs {
 			switch d.Kind {
 			case "struct", "union", "exception":
-				fmt.Fprintf(&sb, "\treg.Add(%q, %q, reflect.TypeOf(%s.%s{}))\n", pk, d.Name, alias(pk), d.Name)
+				fmt.Fprintf(&sb, "\treg.Add(%q, %q, reflect.TypeOf(%s.%s{}))\n", pk, d.Name, alias(pk), d.GoIdent())
 				used = true
 			case "const":
 				fmt.Fprintf(&sb, "\treg.Extra[%q] = %s.%s\n", pk+"."+d.Name, alias(pk), d.Name)
